@@ -72,12 +72,13 @@ func (t *CompactTask) Execute() {
 	t.IncrFull(1)
 	orderWg, inorderWg := m.ImmTable.refMmsTable(m, group.name, false)
 	defer func() {
-		if config.GetStoreConfig().Compact.CompactRecovery {
-			CompactRecovery(m.path, group)
-		}
 		m.ImmTable.unrefMmsTable(orderWg, inorderWg)
 		t.IncrFull(-1)
 	}()
+	if config.GetStoreConfig().Compact.CompactRecovery {
+		// recover() only stops a panic when the deferred function itself calls it: CompactRecovery must be the deferred call
+		defer CompactRecovery(m.path, group)
+	}
 
 	if !m.CompactionEnabled() {
 		return
